@@ -1277,6 +1277,10 @@ impl Cx {
                     }
                     return Err(format!("{}::to_usize() of a type parameter that is not a type-level number in scope", n));
                 }
+                if (f == "alloc::vec::Vec::new" || f == "Vec::new") && c.args.is_empty() {
+                    // what `vec![]` expands to
+                    return Ok(("[]".into(), Pure));
+                }
                 if f.starts_with("core::panicking::") {
                     // what `assert!` / `debug_assert!` expand to
                     return Ok(("Panic".into(), Comp));
@@ -1374,7 +1378,17 @@ impl Cx {
                         for a in &c.args {
                             args.push(self.val(a)?);
                         }
-                        if let Some(cn) = self.res_fns.get(&f).cloned() {
+                        // `legacy::read_four_byte_union_selector(..)`: a path through modules (lower-case segments) names
+                        // the free function of the crate with that name
+                        let fkey = {
+                            let segs: Vec<&str> = f.split("::").collect();
+                            if segs.len() > 1 && segs[..segs.len() - 1].iter().all(|x| !x.is_empty() && x.chars().all(|c| c.is_ascii_lowercase() || c == '_' || c.is_ascii_digit())) {
+                                segs[segs.len() - 1].to_string()
+                            } else {
+                                f.clone()
+                            }
+                        };
+                        if let Some(cn) = self.res_fns.get(&fkey).cloned() {
                             let mut all = self.dict_args(&cn)?;
                             all.extend(args);
                             Ok((format!("{} {}", cn, all.join(" ")), Comp))
@@ -1745,7 +1759,7 @@ impl Cx {
     fn tail(&mut self, e: &Expr, k: &mut dyn FnMut(&mut Cx, String) -> R<String>) -> R<String> {
         // a call that writes through the `&mut Vec<u8>` parameter, as the body of a match arm or a branch:
         // a statement (the buffer is re-bound to what the call returns), not a value
-        if matches!(e, Expr::MethodCall(_) | Expr::Call(_)) && self.is_buf_call(e) {
+        if (matches!(e, Expr::MethodCall(_) | Expr::Call(_)) && self.is_buf_call(e)) || local_mutator(e).is_some() {
             return self.block(&[Stmt::Expr(e.clone(), Some(Default::default()))], k);
         }
         match e {
@@ -1813,6 +1827,9 @@ impl Cx {
                     Pat::TupleStruct(ts) if path_last(&ts.path) == "Some" && ts.elems.len() == 1 => self.pat_name(&ts.elems[0])?,
                     p => return Err(format!("unsupported if-let pattern: {}", tokens(p))),
                 };
+                if let Some(inner) = self.ty_of(&l.expr).and_then(|t| t.strip_prefix("Option<").and_then(|x| x.strip_suffix('>')).map(|x| x.to_string())).filter(|t| !self.dict_params.contains(t)) {
+                    self.var_ty.insert(var.clone(), inner);
+                }
                 let a = self.block(&i.then_branch.stmts, k)?;
                 let b = match &i.else_branch {
                     Some((_, e)) => self.tail(e, k)?,
@@ -1927,7 +1944,13 @@ impl Cx {
                     other => return Err(format!("unsupported match pattern {}", other)),
                 },
                 Pat::Ident(id) if id.ident == "None" => "None".to_string(),
-                Pat::TupleStruct(ts) if path_last(&ts.path) == "Some" => format!("Some {}", self.pat_name(&ts.elems[0])?),
+                Pat::TupleStruct(ts) if path_last(&ts.path) == "Some" => {
+                    let b = self.pat_name(&ts.elems[0])?;
+                    if let Some(inner) = self.ty_of(&m.expr).and_then(|t| t.strip_prefix("Option<").and_then(|x| x.strip_suffix('>')).map(|x| x.to_string())).filter(|t| !self.dict_params.contains(t)) {
+                        self.var_ty.insert(b.clone(), inner);
+                    }
+                    format!("Some {}", b)
+                }
                 p => return Err(format!("unsupported match pattern: {}", tokens(p))),
             };
             let body = self.tail(&arm.body, k)?;
@@ -2736,6 +2759,8 @@ fn coq_type(t: &Type, records: &HashMap<String, Vec<String>>) -> R<String> {
                 base_of(&s)
             } else if s.starts_with("[u8;") {
                 "bytes".into()
+            } else if let Some(t) = rty_coq(&s) {
+                t
             } else {
                 return Err(format!("unsupported type {}", s));
             }
@@ -2757,6 +2782,7 @@ fn main() {
         let src = std::fs::read_to_string(exp).unwrap_or_default();
         // inside the crate the paths are unqualified: drop the `ssz::` / `std::result::` qualifiers
         let src = src.replace("ssz::", "").replace("std::result::Result", "Result");
+        let src = hoist_with_modules(&src);
         match syn::parse_file(&src) {
             Ok(f) => {
                 let mut u = UserTypes::default();
@@ -2775,6 +2801,11 @@ fn main() {
                             let vs = en.variants.iter().map(|v| (v.ident.to_string(), v.fields.iter().next().map(|f| tokens_full(&f.ty).replace(' ', "")))).collect();
                             u.enums.insert(en.ident.to_string(), vs);
                             derive_order.push(en.ident.to_string());
+                        }
+                        Item::Fn(func) if func.sig.ident.to_string().contains("__encode__") || func.sig.ident.to_string().contains("__decode__") => {
+                            // a function of a `four_byte_option_impl!` module (hoisted by `hoist_with_modules`)
+                            let name = func.sig.ident.to_string();
+                            dyn_targets.push(Target { file: "<derive expansion>", imp: "", tr: "", name: leak(name.clone()), coq: leak(name) });
                         }
                         Item::Impl(imp) => {
                             if let (Some((_, tp, _)), Type::Path(sp)) = (&imp.trait_, &*imp.self_ty) {
@@ -3168,6 +3199,10 @@ fn main() {
                             mut_param = Some(name.clone());
                             cx.mut_param = Some(name.clone());
                         }
+                        // derive mode: the parameter's Rust type, for the resolution of method calls on it
+                        if !user().structs.is_empty() || !user().enums.is_empty() {
+                            cx.var_ty.insert(name.clone(), tokens_full(&*pt.ty).replace(' ', "").trim_start_matches('&').to_string());
+                        }
                         match coq_type(&pt.ty, &records) {
                             Ok(ct) => {
                                 let ct = if ct == "SELF" { base.clone() } else { ct };
@@ -3305,6 +3340,72 @@ fn main() {
         let text = format!("(* @generated by /verif/rs2v from what the derive macros of /repo expand to for the sample definitions of\n   /verif/derive_samples -- do not edit.  Every definition is a syntactic translation of one function of an\n   expanded `impl Encode` / `impl Decode` (rules: rs2v/src/main.rs). *)\nFrom SSZ Require Import Base RustSem Generated.\nImport Gen.\nOpen Scope N_scope.\n\nModule GenD.\n\n{}End GenD.\n", out_d);
         let _ = std::fs::write(outp, text);
     }
+}
+
+
+/// Modules written by `four_byte_option_impl!(m, T)` (and anything of the same shape: a module with `encode` /
+/// `decode` submodules of free functions, the interface `#[ssz(with = "m")]` expects): every function
+/// `m::encode::f` becomes a top-level function `m__encode__f`, every path `m::encode::f` in the file is
+/// rewritten to that name, and a call of a sibling by its bare name inside such a function is qualified.
+fn hoist_with_modules(src: &str) -> String {
+    use syn::visit_mut::VisitMut;
+    let mut file = match syn::parse_file(src) { Ok(f) => f, Err(_) => return src.to_string() };
+    struct Sib<'a> { prefix: &'a str, names: &'a [String] }
+    impl<'a> VisitMut for Sib<'a> {
+        fn visit_expr_call_mut(&mut self, c: &mut syn::ExprCall) {
+            if let Expr::Path(p) = &mut *c.func {
+                if p.path.segments.len() == 1 && p.qself.is_none() {
+                    let n = p.path.segments[0].ident.to_string();
+                    if self.names.contains(&n) {
+                        p.path.segments[0].ident = syn::Ident::new(&format!("{}{}", self.prefix, n), p.path.segments[0].ident.span());
+                    }
+                }
+            }
+            syn::visit_mut::visit_expr_call_mut(self, c);
+        }
+    }
+    let mut hoisted: Vec<Item> = vec![];
+    let mut prefixes: Vec<(String, String)> = vec![];
+    let mut keep: Vec<Item> = vec![];
+    for it in std::mem::take(&mut file.items) {
+        let mut taken = false;
+        if let Item::Mod(m) = &it {
+            if let Some((_, items)) = &m.content {
+                let subs: Vec<&syn::ItemMod> = items.iter().filter_map(|i| if let Item::Mod(sm) = i { Some(sm) } else { None }).filter(|sm| sm.ident == "encode" || sm.ident == "decode").collect();
+                if !subs.is_empty() {
+                    taken = true;
+                    for sm in subs {
+                        let prefix = format!("{}__{}__", m.ident, sm.ident);
+                        prefixes.push((format!("{} :: {} :: ", m.ident, sm.ident), prefix.clone()));
+                        if let Some((_, fitems)) = &sm.content {
+                            let names: Vec<String> = fitems.iter().filter_map(|i| if let Item::Fn(f) = i { Some(f.sig.ident.to_string()) } else { None }).collect();
+                            for fi in fitems {
+                                if let Item::Fn(f) = fi {
+                                    let mut f2 = f.clone();
+                                    f2.sig.ident = syn::Ident::new(&format!("{}{}", prefix, f.sig.ident), f.sig.ident.span());
+                                    Sib { prefix: &prefix, names: &names }.visit_item_fn_mut(&mut f2);
+                                    hoisted.push(Item::Fn(f2));
+                                }
+                            }
+                        }
+                    }
+                }
+            }
+        }
+        if !taken {
+            keep.push(it);
+        }
+    }
+    if hoisted.is_empty() {
+        return src.to_string();
+    }
+    file.items = keep;
+    file.items.extend(hoisted);
+    let mut text = file.to_token_stream().to_string();
+    for (from, to) in prefixes {
+        text = text.replace(&from, &to);
+    }
+    text
 }
 
 /// `macro_rules! m { ($a: kind, $b: kind) => { items } }` with a single rule and no repetitions, invoked at
